@@ -204,6 +204,10 @@ def run_check(mod, tier, base_seed, budget_s=None, quiet=False):
     else:
         budget = None
     gen = mod.batches(tier, base_seed)
+    known = [k for k in load_known() if k.get("property") == mod.PROPERTY]
+    known_open = {k["signature"]: k for k in known if k.get("status") == "known"}
+    known_sigs = set(known_open)
+    known_hits, known_example = {}, {}
     n_batches = 0
     harness_error = None
     ctx = multiprocessing.get_context("fork")
@@ -230,7 +234,17 @@ def run_check(mod, tier, base_seed, budget_s=None, quiet=False):
                     break
                 done, pending = wait(pending, return_when=FIRST_COMPLETED)
                 for fut in done:
-                    total.merge(fut.result())
+                    part = fut.result()
+                    keep = []
+                    for scn in part.violations:
+                        sig = signature(mod, scn)
+                        if sig in known_sigs:
+                            known_hits[sig] = known_hits.get(sig, 0) + 1
+                            known_example.setdefault(sig, scn)
+                        else:
+                            keep.append(scn)
+                    part.violations = keep
+                    total.merge(part)
         except Exception as err:  # pylint: disable=broad-except
             harness_error = f"{type(err).__name__}: {err}"
             for fut in pending:
@@ -238,18 +252,15 @@ def run_check(mod, tier, base_seed, budget_s=None, quiet=False):
     wall = time.monotonic() - t0
 
     # ---- report violations: dedupe, write replay, confirm in a fresh interpreter
-    known = [k for k in load_known() if k.get("property") == mod.PROPERTY]
-    known_open = {k["signature"]: k for k in known if k.get("status") == "known"}
     reported = {}
-    printed_known = set()
     exit_code = 0
     for scn in total.violations:
         key = core.digest({k: v for k, v in scn.items() if k not in ("seed", "observed", "minimised_from", "note")})
         if key in reported:
             continue
         sig = signature(mod, scn)
-        if sig in known_open:
-            printed_known.add(sig)
+        if sig in known_open:  # regressions path
+            known_hits[sig] = known_hits.get(sig, 0) + 1
             reported[key] = None
             continue
         if len([r for r in reported.values() if r]) >= MAX_REPORTED:
@@ -268,7 +279,7 @@ def run_check(mod, tier, base_seed, budget_s=None, quiet=False):
         exit_code = 1
     for sig, k in known_open.items():
         # listed findings are printed on every run (they are facts about the unchanged tree)
-        print(f"KNOWN-FINDING: property={mod.PROPERTY} {k.get('what', sig)}")
+        print(f"KNOWN-FINDING: property={mod.PROPERTY} {k.get('what', sig)} [met {known_hits.get(sig, 0)}x in this run]")
     n_viol = len([r for r in reported.values() if r])
 
     # ---- evidence
@@ -310,6 +321,8 @@ def run_check(mod, tier, base_seed, budget_s=None, quiet=False):
         ev["coverage"]["probes_at_zero"] = zero
         if not quiet:
             print(f"WARNING: probes at zero: {zero}")
+    if known_open:
+        ev["coverage"]["known_findings_met"] = {sig: known_hits.get(sig, 0) for sig in known_open}
     if harness_error:
         ev["coverage"]["harness_error"] = harness_error
     edir = os.environ.get("VERIF_EVIDENCE_DIR") or os.path.join(core.VERIF_DIR, "evidence")
